@@ -381,8 +381,13 @@ fn c18(ctx: &mut Ctx, w: &World, st: &St, t: &PTx, _params: &Params, fin: &Finis
         match p {
             0 => needs.push((w.native[0].hash().to_bytes(), false, "mint policy 0".into())),
             1 => needs.push((w.plutus[1].hash().to_bytes(), false, "mint policy 1".into())),
+            3 => needs.push((w.plutus[0].hash().to_bytes(), false, "mint policy 3".into())),
             _ => {}
         }
+    }
+    if st.m.mint_and_output && !st.m.mint.keys().any(|k| k.0 == 0) {
+        // add_mint_asset_and_output_min_required_coin mints under policy 0 with the script inline
+        needs.push((w.native[0].hash().to_bytes(), false, "mint-and-output (policy 0)".into()));
     }
     for k in &st.m.certs {
         match w.certs[*k].script {
@@ -395,6 +400,7 @@ fn c18(ctx: &mut Ctx, w: &World, st: &St, t: &PTx, _params: &Params, fin: &Finis
         match i {
             1 => needs.push((w.native[0].hash().to_bytes(), false, "withdrawal 1".into())),
             3 => needs.push((w.plutus[1].hash().to_bytes(), false, "withdrawal 3".into())),
+            5 => needs.push((w.plutus[0].hash().to_bytes(), false, "withdrawal 5".into())),
             6 => needs.push((w.native[1].hash().to_bytes(), false, "withdrawal 6".into())),
             _ => {}
         }
@@ -403,7 +409,13 @@ fn c18(ctx: &mut Ctx, w: &World, st: &St, t: &PTx, _params: &Params, fin: &Finis
         match i {
             3 => needs.push((w.native[0].hash().to_bytes(), false, "vote 3".into())),
             4 => needs.push((w.plutus[2].hash().to_bytes(), false, "vote 4".into())),
+            5 | 6 => needs.push((w.plutus[0].hash().to_bytes(), false, format!("vote {}", i))),
             _ => {}
+        }
+    }
+    for i in &st.m.proposals {
+        if *i >= 3 {
+            needs.push((w.plutus[0].hash().to_bytes(), false, format!("proposal {}", i)));
         }
     }
     let refs: BTreeSet<(Vec<u8>, u64)> = t.reference_inputs.iter().cloned().collect();
@@ -460,10 +472,11 @@ fn c18(ctx: &mut Ctx, w: &World, st: &St, t: &PTx, _params: &Params, fin: &Finis
     }
     // one redeemer per Plutus use
     let plutus_uses = st.m.inputs.iter().filter(|(i, _)| matches!(w.utxos[*i].0.owner, Owner::Plutus(_))).count()
-        + st.m.mint.keys().map(|k| k.0).collect::<BTreeSet<_>>().iter().filter(|p| **p == 1).count()
+        + st.m.mint.keys().map(|k| k.0).collect::<BTreeSet<_>>().iter().filter(|p| **p == 1 || **p == 3).count()
         + st.m.certs.iter().filter(|k| w.certs[**k].script == Some(2)).count()
-        + st.m.wds.iter().filter(|i| **i == 3).count()
-        + st.m.votes.iter().filter(|i| **i == 4).count();
+        + st.m.wds.iter().filter(|i| **i == 3 || **i == 5).count()
+        + st.m.votes.iter().filter(|i| **i >= 4).count()
+        + st.m.proposals.iter().filter(|i| **i >= 3).count();
     if t.redeemers.len() != plutus_uses {
         ctx.violation("C18/redeemer-count".to_string(), format!("{} redeemers for {} Plutus uses ; {}", t.redeemers.len(), plutus_uses, what()));
     }
